@@ -1,16 +1,275 @@
-use hydro_lang::live_collections::stream::{ExactlyOnce, TotalOrder};
+//! The corpus of small Hydro programs. Every tick output carries the batch / snapshot that was
+//! released into that tick, so the checker can see the simulator's decisions from outside.
+use hydro_lang::live_collections::sliced::sliced;
+use hydro_lang::live_collections::stream::{ExactlyOnce, NoOrder, TotalOrder};
 use hydro_lang::prelude::*;
-use hydro_lang::sim::{SimReceiver, SimSender};
+use hydro_lang::properties::manual_proof;
+use hydro_lang::sim::{SimClusterReceiver, SimClusterSender, SimReceiver, SimSender};
 
-pub fn ordered_batch<'a>(
-    node: &Process<'a>,
-) -> (SimSender<u32, TotalOrder, ExactlyOnce>, SimReceiver<Vec<u32>, TotalOrder, ExactlyOnce>) {
+pub type Tx<T> = SimSender<T, TotalOrder, ExactlyOnce>;
+pub type TxU<T> = SimSender<T, NoOrder, ExactlyOnce>;
+pub type Rx<T> = SimReceiver<T, TotalOrder, ExactlyOnce>;
+
+/// Totally ordered input, one tick per batch; output = the batch of each tick.
+pub fn ordered_batch<'a>(node: &Process<'a>) -> (Tx<u32>, Rx<Vec<u32>>) {
     let tick = node.tick();
-    let (in_send, input) = node.sim_input();
+    let (tx, input) = node.sim_input();
     let out = input
-        .batch(&tick, nondet!(/** test */))
+        .batch(&tick, nondet!(/** released batch is the observation */))
         .fold(q!(|| Vec::new()), q!(|acc, v| acc.push(v)))
         .all_ticks()
         .sim_output();
-    (in_send, out)
+    (tx, out)
+}
+
+/// Unordered input, batch, then an in-tick order observation; output = the observed batch.
+pub fn unordered_batch_observed<'a>(node: &Process<'a>) -> (TxU<u32>, Rx<Vec<u32>>) {
+    let tick = node.tick();
+    let (tx, input) = node.sim_input::<u32, NoOrder, ExactlyOnce>();
+    let out = input
+        .batch(&tick, nondet!(/** released batch is the observation */))
+        .assume_ordering::<TotalOrder>(nondet!(/** observed order is the observation */))
+        .fold(q!(|| Vec::new()), q!(|acc, v| acc.push(v)))
+        .all_ticks()
+        .sim_output();
+    (tx, out)
+}
+
+/// Keyed, per-key ordered input; output per tick = [(key, that key's batch)] (key order observed).
+pub fn keyed_batch<'a>(node: &Process<'a>) -> (Tx<(u32, u32)>, Rx<Vec<(u32, Vec<u32>)>>) {
+    let tick = node.tick();
+    let (tx, input) = node.sim_input::<(u32, u32), TotalOrder, ExactlyOnce>();
+    let out = input
+        .into_keyed()
+        .batch(&tick, nondet!(/** released batch is the observation */))
+        .fold(q!(|| Vec::new()), q!(|acc, v| acc.push(v)))
+        .entries()
+        .assume_ordering::<TotalOrder>(nondet!(/** key order is irrelevant to the checker */))
+        .fold(q!(|| Vec::new()), q!(|acc, kv| acc.push(kv)))
+        .all_ticks()
+        .sim_output();
+    (tx, out)
+}
+
+/// Keyed unordered input (per-key NoOrder); output per tick = [(key, observed batch of the key)].
+pub fn keyed_batch_unordered<'a>(node: &Process<'a>) -> (TxU<(u32, u32)>, Rx<Vec<(u32, Vec<u32>)>>) {
+    let tick = node.tick();
+    let (tx, input) = node.sim_input::<(u32, u32), NoOrder, ExactlyOnce>();
+    let out = input
+        .into_keyed()
+        .batch(&tick, nondet!(/** released batch is the observation */))
+        .assume_ordering::<TotalOrder>(nondet!(/** observed order is the observation */))
+        .fold(q!(|| Vec::new()), q!(|acc, v| acc.push(v)))
+        .entries()
+        .assume_ordering::<TotalOrder>(nondet!(/** key order is irrelevant to the checker */))
+        .fold(q!(|| Vec::new()), q!(|acc, kv| acc.push(kv)))
+        .all_ticks()
+        .sim_output();
+    (tx, out)
+}
+
+/// Snapshot of an ordered top-level fold; output per tick = the version (prefix) that was released.
+pub fn snapshot_of_fold<'a>(node: &Process<'a>) -> (Tx<u32>, Rx<Vec<u32>>) {
+    let tick = node.tick();
+    let (tx, input) = node.sim_input();
+    let folded = input.fold(q!(|| Vec::new()), q!(|acc, v| acc.push(v)));
+    let out = folded.snapshot(&tick, nondet!(/** released version is the observation */)).all_ticks().sim_output();
+    (tx, out)
+}
+
+/// Snapshot of a keyed ordered fold; output per tick = [(key, version of that key)].
+pub fn keyed_snapshot<'a>(node: &Process<'a>) -> (Tx<(u32, u32)>, Rx<Vec<(u32, Vec<u32>)>>) {
+    let tick = node.tick();
+    let (tx, input) = node.sim_input::<(u32, u32), TotalOrder, ExactlyOnce>();
+    let folded = input.into_keyed().fold(q!(|| Vec::new()), q!(|acc, v| acc.push(v)));
+    let out = folded
+        .snapshot(&tick, nondet!(/** released versions are the observation */))
+        .entries()
+        .assume_ordering::<TotalOrder>(nondet!(/** key order is irrelevant to the checker */))
+        .fold(q!(|| Vec::new()), q!(|acc, kv| acc.push(kv)))
+        .all_ticks()
+        .sim_output();
+    (tx, out)
+}
+
+/// Top-level commutative fold over an unordered input (TopLevelFoldHook + passthrough snapshot);
+/// output = every snapshot of the (sorted) accumulator.
+pub fn toplevel_fold<'a>(node: &Process<'a>) -> (TxU<u32>, Rx<Vec<u32>>) {
+    let (tx, input) = node.sim_input::<u32, NoOrder, ExactlyOnce>();
+    let folded = input.fold(
+        q!(|| Vec::new()),
+        q!(
+            |acc, v| {
+                acc.push(v);
+                acc.sort();
+            },
+            commutative = manual_proof!(/** a sorted vector is a multiset */)
+        ),
+    );
+    let out = sliced! {
+        let snapshot = use::snapshot(folded, nondet!(/** released version is the observation */));
+        snapshot.into_stream()
+    }
+    .sim_output();
+    (tx, out)
+}
+
+/// Same, but the accumulator records the order in which the fold saw its inputs (a fold that is
+/// NOT commutative although it claims to be): every input order must be explored.
+pub fn toplevel_fold_order<'a>(node: &Process<'a>) -> (TxU<u32>, Rx<Vec<u32>>) {
+    let (tx, input) = node.sim_input::<u32, NoOrder, ExactlyOnce>();
+    let folded = input.fold(
+        q!(|| Vec::new()),
+        q!(|acc, v| acc.push(v), commutative = manual_proof!(/** deliberately wrong: order is recorded */)),
+    );
+    let out = sliced! {
+        let snapshot = use::snapshot(folded, nondet!(/** released version is the observation */));
+        snapshot.into_stream()
+    }
+    .sim_output();
+    (tx, out)
+}
+
+/// Sum of an unordered input folded at top level; output = every snapshot of the sum.
+pub fn unordered_sum<'a>(node: &Process<'a>) -> (TxU<u32>, Rx<u32>) {
+    let (tx, input) = node.sim_input::<u32, NoOrder, ExactlyOnce>();
+    let folded = input.fold(q!(|| 0u32), q!(|acc, v| *acc += v, commutative = manual_proof!(/** addition */)));
+    let out = sliced! {
+        let snapshot = use::snapshot(folded, nondet!(/** released version is the observation */));
+        snapshot.into_stream()
+    }
+    .sim_output();
+    (tx, out)
+}
+
+/// One tick fed by two ordered inputs; output per tick = (batch of a, batch of b).
+pub fn two_input_tick<'a>(node: &Process<'a>) -> (Tx<u32>, Tx<u32>, Rx<(Vec<u32>, Vec<u32>)>) {
+    let tick = node.tick();
+    let (tx_a, a) = node.sim_input();
+    let (tx_b, b) = node.sim_input();
+    let fa = a.batch(&tick, nondet!(/** observation */)).fold(q!(|| Vec::new()), q!(|acc, v| acc.push(v)));
+    let fb = b.batch(&tick, nondet!(/** observation */)).fold(q!(|| Vec::new()), q!(|acc, v| acc.push(v)));
+    let out = fa.zip(fb).all_ticks().sim_output();
+    (tx_a, tx_b, out)
+}
+
+/// One tick fed by a batch and by a snapshot of an (ordered) top-level fold over a second input;
+/// output per tick = (batch, snapshot version).
+pub fn batch_and_snapshot<'a>(node: &Process<'a>) -> (Tx<u32>, Tx<u32>, Rx<(Vec<u32>, Vec<u32>)>) {
+    let tick = node.tick();
+    let (tx_a, a) = node.sim_input();
+    let (tx_s, s) = node.sim_input();
+    let folded = s.fold(q!(|| Vec::new()), q!(|acc, v| acc.push(v)));
+    let fa = a.batch(&tick, nondet!(/** observation */)).fold(q!(|| Vec::new()), q!(|acc, v| acc.push(v)));
+    let snap = folded.snapshot(&tick, nondet!(/** observation */));
+    let out = fa.zip(snap).all_ticks().sim_output();
+    (tx_a, tx_s, out)
+}
+
+/// One tick fed by a batch and by a snapshot of a HOOKED top-level fold (unordered input, so the
+/// snapshot goes through the passthrough singleton hook); output per tick = (batch, snapshot).
+pub fn batch_and_hooked_fold_snapshot<'a>(node: &Process<'a>) -> (Tx<u32>, TxU<u32>, Rx<(Vec<u32>, Vec<u32>)>) {
+    let tick = node.tick();
+    let (tx_a, a) = node.sim_input();
+    let (tx_s, s) = node.sim_input::<u32, NoOrder, ExactlyOnce>();
+    let folded = s.fold(
+        q!(|| Vec::new()),
+        q!(
+            |acc, v| {
+                acc.push(v);
+                acc.sort();
+            },
+            commutative = manual_proof!(/** a sorted vector is a multiset */)
+        ),
+    );
+    let fa = a.batch(&tick, nondet!(/** observation */)).fold(q!(|| Vec::new()), q!(|acc, v| acc.push(v)));
+    let snap = folded.snapshot(&tick, nondet!(/** observation */));
+    let out = fa.zip(snap).all_ticks().sim_output();
+    (tx_a, tx_s, out)
+}
+
+/// Two ticks: tick A counts its input into a top-level counter; tick B pairs each of its inputs
+/// with a snapshot of that counter. Whether B sees A's effect depends on the order of ready ticks.
+pub fn two_ticks<'a>(node: &Process<'a>) -> (Tx<u32>, Tx<u32>, Rx<(u32, usize)>) {
+    let tick_a = node.tick();
+    let tick_b = node.tick();
+    let (tx_a, a) = node.sim_input::<u32, TotalOrder, ExactlyOnce>();
+    let (tx_b, b) = node.sim_input::<u32, TotalOrder, ExactlyOnce>();
+    let counted = a.batch(&tick_a, nondet!(/** tick A */)).all_ticks().count();
+    let out = b
+        .batch(&tick_b, nondet!(/** tick B */))
+        .cross_singleton(counted.snapshot(&tick_b, nondet!(/** tick B reads A's effect */)))
+        .all_ticks()
+        .sim_output();
+    (tx_a, tx_b, out)
+}
+
+/// The two-slice counter of the repo's quiescence tests: slice 1 passes the input through, slice 2
+/// counts a clone of slice 1's output and reports the count when asked.
+pub fn two_slice_counter<'a>(node: &Process<'a>) -> (Tx<u32>, Rx<u32>, Tx<()>, Rx<i32>) {
+    let (send_port, input) = node.sim_input();
+    let first_slice_out = sliced! {
+        let in_batch = use::batch(input, nondet!(/** test */));
+        in_batch
+    };
+    let first_slice_out_cloned = first_slice_out.clone();
+    let (send_read_counter, read_counter) = node.sim_input();
+    #[allow(unused_mut, reason = "`mut` is consumed by the `sliced!` macro")]
+    let second_slice_count_out = sliced! {
+        let mut count = use::state(|l| l.singleton(q!(0)));
+        let cloned_batch = use::batch(first_slice_out_cloned, nondet!(/** test */));
+        let read_counter_batch = use::batch(read_counter, nondet!(/** test */));
+
+        let count_mut = count.by_mut();
+        cloned_batch.for_each(q!(|_| {
+            *count_mut += 1
+        }));
+
+        read_counter_batch.first().into_stream().map(q!(|_| *count_mut))
+    };
+    (send_port, first_slice_out.sim_output(), send_read_counter, second_slice_count_out.sim_output())
+}
+
+/// Top-level order observation of an unordered stream; output = the observed order.
+pub fn toplevel_order<'a>(node: &Process<'a>) -> (TxU<u32>, Rx<u32>) {
+    let (tx, input) = node.sim_input::<u32, NoOrder, ExactlyOnce>();
+    let out = input.assume_ordering::<TotalOrder>(nondet!(/** observed order is the observation */)).sim_output();
+    (tx, out)
+}
+
+/// A 2-member cluster: unordered per-member input, batched in a tick on every member.
+pub fn cluster_batch<'a>(
+    cluster: &Cluster<'a, ()>,
+) -> (SimClusterSender<u32, NoOrder, ExactlyOnce>, SimClusterReceiver<Vec<u32>, TotalOrder, ExactlyOnce>) {
+    let tick = cluster.tick();
+    let (tx, input) = cluster.sim_input::<u32, NoOrder, ExactlyOnce>();
+    let out = input
+        .batch(&tick, nondet!(/** released batch is the observation */))
+        .assume_ordering::<TotalOrder>(nondet!(/** observed order is the observation */))
+        .fold(q!(|| Vec::new()), q!(|acc, v| acc.push(v)))
+        .all_ticks()
+        .sim_cluster_output();
+    (tx, out)
+}
+
+/// Cluster members send to a process over the network (keyed by member id at the receiver, a
+/// hash-map keyed hook), the process batches the keyed stream; output per tick = [(member, batch)].
+pub fn cluster_to_process<'a>(
+    cluster: &Cluster<'a, ()>,
+    node: &Process<'a>,
+) -> (SimClusterSender<u32, TotalOrder, ExactlyOnce>, Rx<Vec<(u32, Vec<u32>)>>) {
+    use hydro_lang::networking::TCP;
+    let tick = node.tick();
+    let (tx, input) = cluster.sim_input::<u32, TotalOrder, ExactlyOnce>();
+    let out = input
+        .send(node, TCP.fail_stop().bincode())
+        .batch(&tick, nondet!(/** released batch is the observation */))
+        .fold(q!(|| Vec::new()), q!(|acc, v| acc.push(v)))
+        .entries()
+        .map(q!(|(m, v)| (m.get_raw_id(), v)))
+        .assume_ordering::<TotalOrder>(nondet!(/** key order is irrelevant to the checker */))
+        .fold(q!(|| Vec::new()), q!(|acc, kv| acc.push(kv)))
+        .all_ticks()
+        .sim_output();
+    (tx, out)
 }
